@@ -184,12 +184,13 @@ class StandardTextLayout(TextLayout):
         nl: str | bytes = "\n" if isinstance(text, str) else b"\n"
         encoding = get_encoding()
         ellipsis_string = get_ellipsis_string(encoding)
-        ellipsis_width = _get_width(ellipsis_string)
+        # measure the mark as it will be displayed: encoded for the screen
+        ellipsis_char = ellipsis_string.encode(encoding)
+        ellipsis_width = calc_width(ellipsis_char, 0, len(ellipsis_char))
         while width - 1 < ellipsis_width and ellipsis_string:
             ellipsis_string = ellipsis_string[:-1]
-            ellipsis_width = _get_width(ellipsis_string)
-
-        ellipsis_char = ellipsis_string.encode(encoding)
+            ellipsis_char = ellipsis_string.encode(encoding)
+            ellipsis_width = calc_width(ellipsis_char, 0, len(ellipsis_char))
 
         idx = 0
 
@@ -210,7 +211,7 @@ class StandardTextLayout(TextLayout):
                     raise ValueError(f"Invalid padding for start column==0: {pad_left!r}")
                 if start_off != idx:
                     raise ValueError(f"Invalid start offset for  start column==0 and position={idx!r}: {start_off!r}")
-                screen_columns = width - 1 - pad_right
+                screen_columns = width - ellipsis_width - pad_right
 
             else:
                 trimmed = False
